@@ -113,6 +113,12 @@ pub struct Swarm {
     /// the open of the key's copy in this level (index into the levels that
     /// hold a copy) fails with EIO
     pub fault_open: Option<usize>,
+    /// every consultation of the maintenance trigger says "now" (capacities are
+    /// out of reach, so nothing is evicted; the read side must stay untouched)
+    pub fire: bool,
+    /// crash debris older than the age limit in the temporary directories of
+    /// the read-only levels
+    pub ro_debris: bool,
 }
 
 #[derive(Clone, Debug, PartialEq)]
@@ -158,6 +164,8 @@ pub fn run_point(tape: &mut Tape, pt: &Point, detail: bool) -> MatReport {
         temp_mode: *tape.pick(&[None, None, Some(0o400u32), Some(0o440), Some(0o644), Some(0o640), Some(0o444)]),
         foreign_mode: *tape.pick(&[0o444u32, 0o444, 0o444, 0o644, 0o664, 0o400]),
         fault_open: if tape.draw(6) == 5 { Some(tape.draw(3) as usize) } else { None },
+        fire: tape.draw(4) == 3,
+        ro_debris: tape.draw(3) == 2,
     };
     let nshards = 2 + tape.draw(3) as usize;
     let a = tape.draw(nshards as u64) as usize;
@@ -221,12 +229,23 @@ pub fn run_point(tape: &mut Tape, pt: &Point, detail: bool) -> MatReport {
             let m = fs.now - 9_000_000_000_000;
             fs.plant_symlink(&format!("{}/{}", phys, cname), "gone/away", m);
         }
+        if sw.ro_debris && is_reader && !(pt.missing_dirs && c == 0) {
+            let old = fs.now - 10_800_000_000_000;
+            let homes: Vec<String> = match k {
+                LKind::Plain => vec![path.clone()],
+                LKind::Sharded => (0..nshards).map(|s| format!("{}/{}", path, shard_dir_name(s))).filter(|d| fs.exists(d)).collect(),
+            };
+            for h in homes {
+                fs.mkdir_all(&format!("{}/.kismet_temp", h));
+                fs.plant_file(&format!("{}/.kismet_temp/.tmpCRASHED", h), b"half a value", 0o600, old, old);
+            }
+        }
         dirs.push(DirSpec { path, kind, capacity: 1_000_000 });
     }
     let reader_idx: Vec<usize> = (0..nl).filter(|i| !(has_writer && *i == 0)).collect();
     let spec = HandleSpec::Stack { writer: if has_writer { Some(0) } else { None }, readers: reader_idx.clone(), auto_sync: sw.auto_sync, checker: pt.checker };
     let mut w = World::new(fs, &kn, tape, 2, 1, dirs.clone(), WorldCfg { readonly: reader_idx.clone(), check_confined: true, extra_writable: vec![] });
-    w.script_trigger(0, vec![], DrawPolicy::Const(u64::MAX));
+    w.script_trigger(0, vec![], DrawPolicy::Const(if sw.fire { FIRE_NOW } else { u64::MAX }));
     w.script_trigger(1, vec![], DrawPolicy::Const(u64::MAX));
     w.sim.lock().procs[0].umask = sw.umask;
     let handle = w.build(&spec);
@@ -312,7 +331,10 @@ pub fn run_point(tape: &mut Tape, pt: &Point, detail: bool) -> MatReport {
     let present: Vec<usize> = (0..nl).filter(|i| content[*i].is_some()).collect();
     let first = present.first().copied();
     let has_checker = pt.checker != CheckerKind::None;
-    let all_equal = present.windows(2).all(|p| content[p[0]] == content[p[1]]);
+    // a lenient checker is shown everything a strict one is, and accepts it:
+    // results are then those of a stack without checker (first copy wins)
+    let strict = has_checker && pt.checker != CheckerKind::Lenient;
+    let all_equal = !strict || present.windows(2).all(|p| content[p[0]] == content[p[1]]);
     let mismatch = |_: ()| -> Exp {
         if pt.checker == CheckerKind::Panicking {
             Exp::Panic
@@ -408,7 +430,7 @@ pub fn run_point(tape: &mut Tape, pt: &Point, detail: bool) -> MatReport {
                                         Pop::NotFound => {}
                                         Pop::Other => e = Exp::Err(Some(ErrorKind::Other)),
                                         Pop::Val(v) => {
-                                            if v != t {
+                                            if v != t && strict {
                                                 e = mismatch(());
                                             }
                                         }
@@ -479,8 +501,8 @@ pub fn run_point(tape: &mut Tape, pt: &Point, detail: bool) -> MatReport {
     // ------------------------------------------------------------ judge
     let mut findings: Vec<MatFinding> = Vec::new();
     let desc = format!(
-        "writer={:?} readers={:?} content={:?} op={:?} populate={:?} checker={:?} bad_name={:?} missing_dirs={} fault_scratch={} futimens_eperm={} temp_mode={:?} foreign_mode={:o} fault_open={:?} umask={:o} auto_sync={} judge_reads={} shards={} [{}]",
-        pt.cfg.writer, pt.cfg.readers, pt.cfg.content, pt.op, pt.pop, pt.checker, pt.bad_name, pt.missing_dirs, pt.fault_scratch, sw.futimens_eperm, sw.temp_mode, sw.foreign_mode, open_fault_path, sw.umask, sw.auto_sync, sw.judge_reads, nshards, kn.describe()
+        "writer={:?} readers={:?} content={:?} op={:?} populate={:?} checker={:?} bad_name={:?} missing_dirs={} fault_scratch={} futimens_eperm={} temp_mode={:?} foreign_mode={:o} fault_open={:?} fire={} ro_debris={} umask={:o} auto_sync={} judge_reads={} shards={} [{}]",
+        pt.cfg.writer, pt.cfg.readers, pt.cfg.content, pt.op, pt.pop, pt.checker, pt.bad_name, pt.missing_dirs, pt.fault_scratch, sw.futimens_eperm, sw.temp_mode, sw.foreign_mode, open_fault_path, sw.fire, sw.ro_debris, sw.umask, sw.auto_sync, sw.judge_reads, nshards, kn.describe()
     );
     let mut fail = |prop: &'static str, class: &str, msg: String| {
         findings.push(MatFinding { prop, v: Violation::new(class, msg).attr("op", format!("{:?}", pt.op)) });
@@ -507,7 +529,8 @@ pub fn run_point(tape: &mut Tape, pt: &Point, detail: bool) -> MatReport {
         (Exp::Err(None), Exp::Err(_)) => true,
         (a, b) => a == b,
     };
-    let result_prop: &'static str = if has_checker { "c14" } else { "c13" };
+    // (with a lenient checker the result is the checkerless one: C13's clause)
+    let result_prop: &'static str = if strict { "c14" } else { "c13" };
     if !matches {
         fail(result_prop, "result", format!("expected {:?}, got {:?} ({}){}", exp, got, res.short(), if open_fault_hit { format!(" -- the open of the copy {} failed with EIO", open_fault_path.clone().unwrap_or_default()) } else { String::new() }));
     }
@@ -636,7 +659,7 @@ pub fn run_point(tape: &mut Tape, pt: &Point, detail: bool) -> MatReport {
     }
     // with a recording checker and success: the comparisons connect every
     // present copy (and the populated value when it is compared)
-    if pt.checker == CheckerKind::Recording && matches && pt.bad_name.is_none() && matches!(got, Exp::Hit(_)) && first.is_some() && !matches!(pt.op, MOp::Gou(Action::Replace)) {
+    if matches!(pt.checker, CheckerKind::Recording | CheckerKind::Lenient) && matches && pt.bad_name.is_none() && matches!(got, Exp::Hit(_)) && first.is_some() && !matches!(pt.op, MOp::Gou(Action::Replace)) {
         let mut inos: Vec<u64> = Vec::new();
         for i in present.iter() {
             if let Some((_, s, _)) = key_file(&before_op[*i]).first() {
